@@ -86,6 +86,12 @@ func mix(n, files int) legCfg {
 	return legCfg{Kind: "trace", Name: "mix", Module: "EngineTrace", TraceN: n, TraceFiles: files, Timeout: 15 * time.Minute, WorkerArgs: []string{"-gen", "MIX"}}
 }
 
+// repo: the repository's own test suite run with the recorder (verif_trace_test.go), every recorded New / Exec call whose
+// text translates into the specification's AST validated stage by stage against EngineTrace (internal/h repotests.go)
+func repo(filter string) legCfg {
+	return legCfg{Kind: "trace", Name: "repotests", Module: "EngineTrace", TraceN: 1, TraceFiles: 1, Timeout: 10 * time.Minute, WorkerArgs: []string{"-gen", "REPO:" + filter}}
+}
+
 func tr(name, module string, n, files int) legCfg {
 	return legCfg{Kind: "trace", Name: name, Module: module, TraceN: n, TraceFiles: files, Timeout: 10 * time.Minute}
 }
@@ -93,31 +99,31 @@ func tr(name, module string, n, files int) legCfg {
 var props = map[string]*propCfg{
 	"C01": {
 		ID: "C01", Level: "model_checking", Exhaustive: true,
-		Rule:        "TLC enumerates every table (<= MaxRows rows per column family: numeric, string, boolean/nullable, two numeric columns, IN-subquery) x every predicate of the family's grammar (comparisons, IN / NOT IN lists, BETWEEN, LIKE patterns, IS, NOT / AND / OR combinations, De Morgan pairs); each case is replayed as SELECT * FROM t WHERE p and the row sequence compared. Leg T adds seeded random tables (0-8 rows, 5 typed columns) x predicates to depth 5, validated event by event against EngineTrace. A case is non-trivial when the predicate keeps some but not all rows; distinct = distinct (table, predicate) pairs.",
+		Rule:        "TLC enumerates every table (<= MaxRows rows per column family: numeric, string, boolean/nullable, two numeric columns, IN-subquery) x every predicate of the family's grammar (comparisons, IN / NOT IN lists, BETWEEN, LIKE patterns, IS, NOT / AND / OR combinations, De Morgan pairs); each case is replayed as SELECT * FROM t WHERE p and the row sequence compared. Leg T adds seeded random tables (0-8 rows, 5 typed columns) x predicates to depth 5, validated event by event against EngineTrace. A case is non-trivial when the predicate keeps some but not all rows; distinct = distinct (table, predicate) pairs. Leg T also validates the repository's own test suite: run with the recorder behind the verif tag, each New / Exec call of the tests whose query text translates into the specification's AST (and each recorded input the tests never execute, executed by the harness) is checked stage by stage against EngineTrace.",
 		Assumptions: baseAssumptions,
-		Quick:       []legCfg{mc("where", "MC_C01", "C01_quick.cfg", 10*time.Minute), tr("where", "EngineTrace", 400, 4)},
-		Thorough:    []legCfg{mc("where", "MC_C01", "C01_thorough.cfg", 40*time.Minute), mc("deep", "MC_C01", "C01_deep.cfg", 40*time.Minute), tr("where", "EngineTrace", 2500, 12)},
+		Quick:       []legCfg{mc("where", "MC_C01", "C01_quick.cfg", 10*time.Minute), tr("where", "EngineTrace", 400, 4), repo("where")},
+		Thorough:    []legCfg{mc("where", "MC_C01", "C01_thorough.cfg", 40*time.Minute), mc("deep", "MC_C01", "C01_deep.cfg", 40*time.Minute), tr("where", "EngineTrace", 2500, 12), repo("where")},
 	},
 	"C05": {
 		ID: "C05", Level: "model_checking", Exhaustive: true,
-		Rule:        "TLC enumerates (a) every table of <= MaxRows rows over a numeric, a string and a nullable column x every key list (1 key incl. the nullable one, 2 keys, all ASC/DESC mixes, also on an aliased output column) x three windows, and (b) every table of <= MaxWin position-identified rows x {no order, ASC, DESC} x every (limit, offset) pair from {0,1,2,3,5} x {absent,0,1,2,4,6} in both LIMIT spellings. Each case is replayed: the key-tuple sequence must equal the specification's, the rows must be a permutation, and a windowed result must be exactly the window of the engine's own ordered sequence. Leg T: seeded random tables (0-10 rows, 4 columns), 1-3 keys, limits/offsets 0-11, validated event by event (OrderOK, window). Non-trivial: sorting changes the sequence or the window cuts it; distinct = distinct (table, query) pairs.",
+		Rule:        "TLC enumerates (a) every table of <= MaxRows rows over a numeric, a string and a nullable column x every key list (1 key incl. the nullable one, 2 keys, all ASC/DESC mixes, also on an aliased output column) x three windows, and (b) every table of <= MaxWin position-identified rows x {no order, ASC, DESC} x every (limit, offset) pair from {0,1,2,3,5} x {absent,0,1,2,4,6} in both LIMIT spellings. Each case is replayed: the key-tuple sequence must equal the specification's, the rows must be a permutation, and a windowed result must be exactly the window of the engine's own ordered sequence. Leg T: seeded random tables (0-10 rows, 4 columns), 1-3 keys, limits/offsets 0-11, validated event by event (OrderOK, window). Non-trivial: sorting changes the sequence or the window cuts it; distinct = distinct (table, query) pairs. Leg T also validates the repository's own test suite: run with the recorder behind the verif tag, each New / Exec call of the tests whose query text translates into the specification's AST (and each recorded input the tests never execute, executed by the harness) is checked stage by stage against EngineTrace.",
 		Assumptions: baseAssumptions,
-		Quick:       []legCfg{mc("order", "MC_C05", "C05_quick.cfg", 10*time.Minute), tr("order", "EngineTrace", 300, 4), mix(200, 3)},
-		Thorough:    []legCfg{mc("order", "MC_C05", "C05_thorough.cfg", 40*time.Minute), tr("order", "EngineTrace", 2000, 12), mix(1500, 12)},
+		Quick:       []legCfg{mc("order", "MC_C05", "C05_quick.cfg", 10*time.Minute), tr("order", "EngineTrace", 300, 4), mix(200, 3), repo("order")},
+		Thorough:    []legCfg{mc("order", "MC_C05", "C05_thorough.cfg", 40*time.Minute), tr("order", "EngineTrace", 2000, 12), mix(1500, 12), repo("order")},
 	},
 	"C02": {
 		ID: "C02", Level: "model_checking", Exhaustive: true,
-		Rule:        "TLC enumerates (a) one aliased expression per case from the grammar: 10 atoms (columns a, b, nested n.p, a missing key, constants 0 1 2 3 -1 1/2), every binary operator (+ - * / DIV % & | ^ << >>) and unary operator (- ~ !) over all atom pairs, depth-2 trees over a core set, CASE WHEN with 1-2 arms with/without ELSE, on every 1-row (thorough: also 2-row) table drawn from 5 rows incl. a NULL operand, keeping only inputs whose meaning the statement fixes (no division by zero etc.); (b) every select list of 1-3 items from 9 items (star, bare / aliased columns, nested path, missing key, expressions, a literal, clashing names) x every table of <= MaxRows rows x {no WHERE, WHERE}. Each case is replayed and the exact row sequence (key sets and values) compared. Leg T: seeded random tables (0-6 rows) x select lists of 1-4 items with trees to depth 5. Non-trivial: at least one output row and not a lone bare column / literal; distinct = distinct (table, query) pairs.",
+		Rule:        "TLC enumerates (a) one aliased expression per case from the grammar: 10 atoms (columns a, b, nested n.p, a missing key, constants 0 1 2 3 -1 1/2), every binary operator (+ - * / DIV % & | ^ << >>) and unary operator (- ~ !) over all atom pairs, depth-2 trees over a core set, CASE WHEN with 1-2 arms with/without ELSE, on every 1-row (thorough: also 2-row) table drawn from 5 rows incl. a NULL operand, keeping only inputs whose meaning the statement fixes (no division by zero etc.); (b) every select list of 1-3 items from 9 items (star, bare / aliased columns, nested path, missing key, expressions, a literal, clashing names) x every table of <= MaxRows rows x {no WHERE, WHERE}. Each case is replayed and the exact row sequence (key sets and values) compared. Leg T: seeded random tables (0-6 rows) x select lists of 1-4 items with trees to depth 5. Non-trivial: at least one output row and not a lone bare column / literal; distinct = distinct (table, query) pairs. Leg T also validates the repository's own test suite: run with the recorder behind the verif tag, each New / Exec call of the tests whose query text translates into the specification's AST (and each recorded input the tests never execute, executed by the harness) is checked stage by stage against EngineTrace.",
 		Assumptions: append([]string{"numbers are compared exactly when the expected value is dyadic, otherwise within 1e-12 relative (IEEE rounding of the engine's float64 arithmetic against the specification's exact rationals)"}, baseAssumptions...),
-		Quick:       []legCfg{mc("proj", "MC_C02", "C02_quick.cfg", 10*time.Minute), tr("proj", "EngineTrace", 300, 4), mix(200, 3)},
-		Thorough:    []legCfg{mc("proj", "MC_C02", "C02_thorough.cfg", 40*time.Minute), tr("proj", "EngineTrace", 2000, 12), mix(1500, 12)},
+		Quick:       []legCfg{mc("proj", "MC_C02", "C02_quick.cfg", 10*time.Minute), tr("proj", "EngineTrace", 300, 4), mix(200, 3), repo("all")},
+		Thorough:    []legCfg{mc("proj", "MC_C02", "C02_thorough.cfg", 40*time.Minute), tr("proj", "EngineTrace", 2000, 12), mix(1500, 12), repo("all")},
 	},
 	"C03": {
 		ID: "C03", Level: "model_checking", Exhaustive: true,
-		Rule:        "TLC enumerates every table of <= MaxRows rows drawn from a pool of rows with two plain grouping columns, a grouping column holding NULL and values of different kinds with equal %v text, a numeric column and a numeric column with NULLs x 5 grouping column sets x 7 select lists (COUNT(*), SUM on two columns, MIN/MAX, AVG/COUNT(col), aggregates only, star, aggregates before columns) x 5 WHERE/HAVING combinations, plus the no-GROUP-BY family: 4 all-aggregate select lists x 5 WHERE predicates incl. one no row passes. Each case is replayed several times in fresh queries and the exact output sequence compared. Leg T: seeded random tables (0-10 rows) x 1-3 grouping columns x 1-4 aggregates x WHERE/HAVING. Non-trivial: >= 2 groups (grouped) or a WHERE that keeps some but not all rows (whole-table); distinct = distinct (table, query) pairs.",
+		Rule:        "TLC enumerates every table of <= MaxRows rows drawn from a pool of rows with two plain grouping columns, a grouping column holding NULL and values of different kinds with equal %v text, a numeric column and a numeric column with NULLs x 5 grouping column sets x 7 select lists (COUNT(*), SUM on two columns, MIN/MAX, AVG/COUNT(col), aggregates only, star, aggregates before columns) x 5 WHERE/HAVING combinations, plus the no-GROUP-BY family: 4 all-aggregate select lists x 5 WHERE predicates incl. one no row passes. Each case is replayed several times in fresh queries and the exact output sequence compared. Leg T: seeded random tables (0-10 rows) x 1-3 grouping columns x 1-4 aggregates x WHERE/HAVING. Non-trivial: >= 2 groups (grouped) or a WHERE that keeps some but not all rows (whole-table); distinct = distinct (table, query) pairs. Leg T also validates the repository's own test suite: run with the recorder behind the verif tag, each New / Exec call of the tests whose query text translates into the specification's AST (and each recorded input the tests never execute, executed by the harness) is checked stage by stage against EngineTrace.",
 		Assumptions: baseAssumptions,
-		Quick:       []legCfg{mc("group", "MC_C03", "C03_quick.cfg", 10*time.Minute), tr("group", "EngineTrace", 300, 4), mix(200, 3)},
-		Thorough:    []legCfg{mc("group", "MC_C03", "C03_thorough.cfg", 60*time.Minute), tr("group", "EngineTrace", 2000, 12), mix(1500, 12)},
+		Quick:       []legCfg{mc("group", "MC_C03", "C03_quick.cfg", 10*time.Minute), tr("group", "EngineTrace", 300, 4), mix(200, 3), repo("group")},
+		Thorough:    []legCfg{mc("group", "MC_C03", "C03_thorough.cfg", 60*time.Minute), tr("group", "EngineTrace", 2000, 12), mix(1500, 12), repo("group")},
 	},
 	"C06": {
 		ID: "C06", Level: "model_checking", Exhaustive: true,
